@@ -130,6 +130,8 @@ struct Sim {
     /// lock A: sees the administrator expiry; compared with B while ct <= expiry
     a: SoftLock,
     expiry: Option<Duration>,
+    /// earliest administrator expiry set so far
+    min_expiry: Option<Duration>,
     /// A is still comparable with B (no instant after the expiry has been applied yet)
     comparable: bool,
     now: u128,
@@ -148,7 +150,9 @@ impl Sim {
     fn attempt(&mut self, wrong: bool, log: &mut CaseLog) {
         let ct = dur(self.now);
         // ---- lock A (with expiry), differential P4
-        if let Some(e) = self.expiry {
+        // Every expiry value ever set may have left its mark on lock A (reset_at is capped by it),
+        // so the twins are only comparable while the clock has not passed the EARLIEST of them.
+        if let Some(e) = self.min_expiry {
             if ct > e {
                 self.comparable = false;
             }
@@ -291,7 +295,9 @@ impl Sim {
             Ev::SetExpiry(off) => {
                 let e = (self.now / NS) as i128 + *off as i128;
                 if e >= 0 {
-                    self.expiry = Some(Duration::from_secs(e as u64));
+                    let d = Duration::from_secs(e as u64);
+                    self.expiry = Some(d);
+                    self.min_expiry = Some(self.min_expiry.map_or(d, |m| m.min(d)));
                     // a new expiry value: A is comparable again until the clock passes it
                     // only if A and B are still in the same state, which we cannot see; so once
                     // diverged, stay diverged.
@@ -313,6 +319,7 @@ fn check(case: &Case) -> Outcome {
         a: SoftLock::new(case.pol.real()),
         b: SoftLock::new(case.pol.real()),
         expiry: None,
+        min_expiry: None,
         comparable: true,
         now: case.start.0 as u128 * NS + (case.start.1 % 1_000_000_000) as u128,
         per_window: BTreeMap::new(),
